@@ -11,6 +11,7 @@ import (
 	"sort"
 	"strings"
 	"testing"
+	"time"
 
 	"github.com/prometheus/prometheus/model/histogram"
 	"github.com/prometheus/prometheus/model/labels"
@@ -142,7 +143,36 @@ func drain(it chunkenc.Iterator, out [][]int64, limit int) ([][]int64, error) {
 
 // observe runs one case on the real code: the stream of a reader iterating from the start and,
 // for every target, the stream of a reader on a fresh iterator whose first call is Seek(target).
-func observe(c vt.Case) (ev vt.Event) {
+func observe(c vt.Case) vt.Event {
+	return guarded(func() vt.Event { return observeUnguarded(c) },
+		vt.Event{"next": [][]int64{}, "seeks": []any{}})
+}
+
+// guarded runs one observation under a watchdog: code under test that does not return within
+// the (very generous) deadline is recorded as an observation (err = "no result ...") instead of
+// hanging the harness. The stuck goroutine cannot be cancelled; after three such cases the
+// harness stops executing further cases (they would only pile up spinning goroutines).
+var stuck int
+
+const watchdog = 120 * time.Second
+
+func guarded(run func() vt.Event, empty vt.Event) vt.Event {
+	if stuck >= 3 {
+		return nil
+	}
+	ch := make(chan vt.Event, 1)
+	go func() { ch <- run() }()
+	select {
+	case ev := <-ch:
+		return ev
+	case <-time.After(watchdog):
+		stuck++
+		empty["err"] = fmt.Sprintf("no result after %s: the code under test does not terminate", watchdog)
+		return empty
+	}
+}
+
+func observeUnguarded(c vt.Case) (ev vt.Event) {
 	reps := readReps(c["reps"])
 	src, f := vt.Str(c["src"]), vt.Str(c["f"])
 	total := 0
